@@ -122,9 +122,28 @@ func runMain() {
 		c := exec.Command(bin, args...)
 		c.Env = append(env, "GORACE=log_path="+filepath.Join(o.Out, "racelog_"+tag)+" halt_on_error=0 exitcode=0")
 		done := make(chan error, 1)
-		go func() { _, err := c.CombinedOutput(); done <- err }()
+		var childOut []byte
+		go func() { out, err := c.CombinedOutput(); childOut = out; done <- err }()
 		select {
-		case <-done:
+		case err := <-done:
+			if err != nil {
+				// the harness process died (a panic on one of the library's own goroutines cannot be recovered by the
+				// harness): report it with the end of its output, which names the panic and the goroutine's frames
+				tail := string(childOut)
+				if i := strings.Index(tail, "panic:"); i >= 0 {
+					tail = tail[i:]
+				} else if i := strings.Index(tail, "fatal error:"); i >= 0 {
+					tail = tail[i:]
+				}
+				if len(tail) > 3000 {
+					tail = tail[:3000]
+				}
+				tag := "harness-crash"
+				if strings.Contains(tail, "github.com/jirenius/go-res") {
+					tag = "process-crash"
+				}
+				impl = append(impl, ImplViolation{What: tag + ": the " + ch.cmd + " harness process, run under the race detector, died: " + err.Error(), Desc: map[string]interface{}{"harness": ch.cmd, "seed": o.Seed, "output": tail}, Tags: []string{tag}})
+			}
 		case <-time.After(60 * time.Minute):
 			c.Process.Kill()
 			impl = append(impl, ImplViolation{What: "race-run: " + ch.cmd + " did not finish", Desc: ch.cmd, Tags: []string{"race-run"}})
